@@ -329,13 +329,18 @@ have Hnew := body_newq hk Hon Hb.
 have Hunit : dotv (s_r3 k st) (s_r3 k st) = 1 by rewrite /s_r3 /s_b; exact: normalize_unit.
 have Horth j : (j <= k)%N -> dotv (qv st j) (s_r3 k st) = 0.
   by move=> hj; rewrite /s_r3 dotvZr /s_r2 (proj_orth Hon') ?mulr0.
-move=> i j; rewrite !ltnS !leq_eqVlt => /orP[/eqP->|hi] /orP[/eqP->|hj].
-- by rewrite Hnew Hunit eqxx.
-- rewrite Hnew Hold // dotvC Horth //.
+move=> i j hi hj.
+have [Ei|Ni] := eqVneq i k.+1; have [Ej|Nj] := eqVneq j k.+1.
+- by rewrite Ei Ej Hnew Hunit eqxx.
+- have hj' : (j <= k)%N by lia.
+  rewrite Ei Hnew Hold // dotvC Horth //.
   by have /negbTE-> : k.+1 != j by lia.
-- rewrite Hnew Hold // Horth //.
+- have hi' : (i <= k)%N by lia.
+  rewrite Ej Hnew Hold // Horth //.
   by have /negbTE-> : i != k.+1 by lia.
-- by rewrite !Hold //; apply: Hon.
+- have hi' : (i <= k)%N by lia.
+  have hj' : (j <= k)%N by lia.
+  by rewrite !Hold //; apply: Hon.
 Qed.
 
 Lemma ON_frame k st w : (w <= k.+1)%N -> ON w st -> ON w (body k st).1.
@@ -361,9 +366,9 @@ have := @lz_loop_rule _ ArR n C num_iter mm tol brk n_extra
 case; last by move=> b [].
 move=> k' st' k0' kn' HP; split.
   move=> HG; apply: ON_frame => //; apply: HP => j hj.
-  by rewrite -(be_frame st') //; exact: HG.
+  by rewrite -(@be_frame k' st') //; exact: HG.
 move=> hk HG.
-have HG' : G k'.+1 st' by move=> j hj; rewrite -(be_frame st') //; apply: HG; lia.
+have HG' : G k'.+1 st' by move=> j hj; rewrite -(@be_frame k' st') //; apply: HG; lia.
 apply: ON_step => //; first exact: HP.
 by rewrite -(body_beta st' hk); apply: HG.
 Qed.
@@ -410,14 +415,304 @@ have Hr1 : dotv (i_q0 init) (i_r1 init) = 0.
 have Hb' : dotv (i_r1 init) (i_r1 init) != 0 by rewrite -sqrt_dotv_neq0.
 have H11 : dotv ((i_b init)^-1 *: i_r1 init) ((i_b init)^-1 *: i_r1 init) = 1 by exact: normalize_unit.
 have H01 : dotv (i_q0 init) ((i_b init)^-1 *: i_r1 init) = 0 by rewrite dotvZr Hr1 mulr0.
-move=> i j; rewrite !ltnS !leq_eqVlt !ltnS !leqn0 => /orP[/eqP->|/eqP->] /orP[/eqP->|/eqP->].
-- by rewrite init_q1 H11.
-- by rewrite init_q1 init_q0 dotvC H01.
-- by rewrite init_q1 init_q0 H01.
+move=> [|[|i]] [|[|j]] // _ _.
 - by rewrite init_q0 H00.
+- by rewrite init_q1 init_q0 H01.
+- by rewrite init_q1 init_q0 dotvC H01.
+- by rewrite init_q1 H11.
 Qed.
 
+(* the entries of a symmetric banded t_mat in terms of its diagonal (al) and super-diagonal (be) *)
+Lemma T_entry st i j : t_sym ArR st.2 -> t_band ArR st.2 ->
+  tget ArR st.2 i j c = (if i.+1 == j then be st i else 0) + (if i == j then al st j else 0)
+                        + (if i == j.+1 then be st j else 0).
+Proof.
+move=> Hs Hb.
+have [E1|N1] := eqVneq i.+1 j.
+  have /negbTE-> : i != j by lia.
+  have /negbTE-> : i != j.+1 by lia.
+  by rewrite !addr0 -E1.
+have [E2|N2] := eqVneq i j; first by rewrite E2 kSk add0r addr0.
+have [E3|N3] := eqVneq i j.+1; first by rewrite E3 !add0r Hs.
+by rewrite !addr0 Hb //; lia.
+Qed.
+
+(* ---------------- the three-term (Arnoldi) relation for a symmetric linear closure ---------------- *)
+Section Sym.
+Variable Am : 'M[F]_n.
+Hypothesis mm_lin : forall X, cv n (mm X) c = Am *m cv n X c.
+Hypothesis Am_sym : Am^T = Am.
+
+(* A q_j = beta_{j-1} q_{j-1} + alpha_j q_j + beta_j q_{j+1}  for the first w - 1 vectors *)
+Definition AR (w : nat) (st : lz_state F) :=
+  forall j, (j.+1 < w)%N ->
+    Am *m qv st j = (if j is j'.+1 then be st j' *: qv st j' else 0) + al st j *: qv st j + be st j *: qv st j.+1.
+
+Lemma s_wE k st : s_w k st = Am *m qv st k.
+Proof. by rewrite /s_w mm_lin. Qed.
+
+Lemma AR_dot k st i : (0 < k)%N -> ON k.+1 st -> AR k.+1 st -> (i < k)%N ->
+  dotv (qv st k) (Am *m qv st i) = if i.+1 == k then be st i else 0.
+Proof.
+move=> k0 Hon Har hi; rewrite Har ?ltnS // !dotvDr !dotvZr.
+have kk : (k < k.+1)%N by [].
+have ik : (i < k.+1)%N by lia.
+have iSk : (i.+1 < k.+1)%N by lia.
+have /negbTE Nki : k != i by lia.
+have E1 : dotv (qv st k) (qv st i) = 0 by rewrite Hon // Nki.
+have E2 : dotv (qv st k) (qv st i.+1) = (i.+1 == k)%:R by rewrite Hon // eq_sym.
+have E3 : dotv (qv st k) (if i is j'.+1 then be st j' *: qv st j' else 0) = 0.
+  case: i hi ik {Har iSk E1 E2 Nki} => [|i'] hi ik; first by rewrite dotv0r.
+  have ik' : (i' < k.+1)%N by lia.
+  have /negbTE Nki' : k != i' by lia.
+  by rewrite dotvZr Hon // Nki' mulr0.
+rewrite E1 E2 E3 mulr0 !add0r.
+by case: ifP => _; rewrite ?mulr1 ?mulr0.
+Qed.
+
+(* with a symmetric closure the correction of the full re-orthogonalisation vanishes *)
+Lemma s_r1_orth k st i :
+  (0 < k)%N -> t_sym ArR st.2 -> ON k.+1 st -> AR k.+1 st -> (i <= k)%N -> dotv (qv st i) (s_r1 k st) = 0.
+Proof.
+move=> k0 Hs Hon Har hi.
+have kk : (k < k.+1)%N by [].
+have ik : (i < k.+1)%N by lia.
+have pk : (k.-1 < k.+1)%N by lia.
+have Ebp : tget ArR st.2 k k.-1 c = be st k.-1 by rewrite Hs /be prednK.
+rewrite /s_r1 /s_a /s_r s_wE Ebp.
+have [Ei|Ni] := eqVneq i k.
+  by rewrite Ei dotvBr dotvZr Hon // eqxx mulr1 subrr.
+have hi' : (i < k)%N by lia.
+rewrite !dotvBr !dotvZr (dotvC _ (Am *m _)) dotv_mulmx_sym // (AR_dot k0 Hon Har hi').
+rewrite (Hon i k) // (negbTE Ni) mulr0 subr0 (Hon i k.-1) //.
+have -> : (i == k.-1) = (i.+1 == k) by lia.
+case: eqP => [E|_]; last by rewrite mulr0 subrr.
+by rewrite -E /= mulr1 subrr.
+Qed.
+
+Lemma s_r2_r1 k st :
+  (0 < k)%N -> t_sym ArR st.2 -> ON k.+1 st -> AR k.+1 st -> s_r2 k st = s_r1 k st.
+Proof. by move=> k0 Hs Hon Har; apply: proj_id => j hj; exact: s_r1_orth. Qed.
+
+Lemma s_aE k st : (0 < k)%N -> t_sym ArR st.2 -> ON k.+1 st -> s_a k st = dotv (qv st k) (Am *m qv st k).
+Proof.
+move=> k0 Hs Hon.
+have kk : (k < k.+1)%N by [].
+have pk : (k.-1 < k.+1)%N by lia.
+have /negbTE Nk : k != k.-1 by lia.
+by rewrite /s_a /s_r s_wE dotvBr dotvZr Hon // Nk mulr0 subr0.
+Qed.
+
+Lemma al_frame k st j : (j < k)%N -> al (body k st).1 j = al st j.
+Proof. by move=> hj; rewrite /al body_frame_t //; lia. Qed.
+
+Lemma qv_frame k st j : (j <= k)%N -> qv (body k st).1 j = qv st j.
+Proof. by move=> hj; rewrite /qv body_frame_q //; lia. Qed.
+
+Lemma AR_frame k st w : (w <= k.+1)%N -> AR w st -> AR w (body k st).1.
+Proof.
+move=> hw Har j hj.
+have h1 : (j <= k)%N by lia.
+have h2 : (j.+1 <= k)%N by lia.
+have h3 : (j < k)%N by lia.
+rewrite !qv_frame // al_frame // be_frame // Har //; congr (_ + _ + _).
+case: j hj h1 h2 h3 => [|j'] hj h1 h2 h3 //.
+have h4 : (j' < k)%N by lia.
+have h5 : (j' <= k)%N by lia.
+by rewrite be_frame // qv_frame.
+Qed.
+
+Lemma AR_step k st :
+  (0 < k)%N -> (k.+1 < num_iter)%N -> t_sym ArR st.2 -> ON k.+1 st -> AR k.+1 st -> s_b k st != 0 ->
+  AR k.+2 (body k st).1.
+Proof.
+move=> k0 hk Hs Hon Har Hb j; rewrite ltnS => hj.
+have [Ej|Nj] := eqVneq j k; last first.
+  have hj' : (j.+1 < k.+1)%N by lia.
+  exact: (AR_frame (leqnn _) Har).
+rewrite Ej qv_frame // body_alpha body_beta // (body_newq hk Hon Hb).
+rewrite /s_r3 scalerA divff // scale1r (s_r2_r1 k0 Hs Hon Har) /s_r1 /s_r s_wE.
+case: k k0 {hk Ej hj Hb Hon Har} => [//|k'] _ /=.
+rewrite be_frame; last by lia.
+rewrite qv_frame; last by lia.
+rewrite Hs -/(be st k').
+by rewrite -[_ - _ - _]addrA -opprD addrC subrK.
+Qed.
+
+(* one loop body maintains the invariant of the projection theorem *)
+Lemma body_AR_inv k st :
+  (0 < k)%N -> t_sym ArR st.2 -> (G k.+1 st -> ON k.+1 st /\ AR k.+1 st) ->
+  [/\ t_sym ArR (body k st).1.2,
+      (G k.+1 (body k st).1 ->
+         [/\ ON k.+1 (body k st).1, AR k.+1 (body k st).1
+            & al (body k st).1 k = dotv (qv (body k st).1 k) (Am *m qv (body k st).1 k)]) &
+      ((k.+1 < num_iter)%N -> G k.+2 (body k st).1 -> ON k.+2 (body k st).1 /\ AR k.+2 (body k st).1)].
+Proof.
+move=> k0 Hs HP.
+have Hs' : t_sym ArR (body k st).1.2 by exact: body_sym.
+have HGf : G k.+1 (body k st).1 -> G k.+1 st.
+  by move=> HG j hj; rewrite -(@be_frame k st) //; exact: HG.
+split=> //.
+  move=> HG; have [Hon Har] := HP (HGf HG).
+  split; [exact: ON_frame | exact: AR_frame |].
+  by rewrite body_alpha qv_frame // s_aE.
+move=> hk HG.
+have HG' : G k.+1 (body k st).1 by move=> j hj; apply: HG; lia.
+have [Hon Har] := HP (HGf HG').
+have Hb : s_b k st != 0 by rewrite -(body_beta st hk); apply: HG.
+by split; [exact: ON_step | exact: AR_step].
+Qed.
+
+(* the invariant of the projection theorem and what holds at the exit *)
+Lemma loop_AR fuel k st :
+  (0 < fuel)%N -> (k + fuel = num_iter)%N -> (0 < k)%N ->
+  t_sym ArR st.2 /\ (G k.+1 st -> ON k.+1 st /\ AR k.+1 st) ->
+  let r := loop fuel k st in
+  t_sym ArR r.1.2 /\ (G r.2.+1 r.1 -> [/\ ON r.2.+1 r.1, AR r.2.+1 r.1 & al r.1 r.2 = dotv (qv r.1 r.2) (Am *m qv r.1 r.2)]).
+Proof.
+move=> f0 Hk k0 H.
+have := @lz_loop_rule _ ArR n C num_iter mm tol brk n_extra
+          (fun k st => (0 < k)%N /\ t_sym ArR st.2 /\ (G k.+1 st -> ON k.+1 st /\ AR k.+1 st))
+          (fun k st _ => t_sym ArR st.2 /\ (G k.+1 st -> [/\ ON k.+1 st, AR k.+1 st & al st k = dotv (qv st k) (Am *m qv st k)]))
+          _ fuel k st f0 Hk k0 (conj k0 H).
+case; last by move=> b [].
+move=> k' st' _ kn' [k0' [Hs HP]].
+have [H1 H2 H3] := body_AR_inv k0' Hs HP.
+by split=> // hk; split=> //; split=> //; exact: H3.
+Qed.
+
+(* the residual A q_k - beta_{k-1} q_{k-1} - alpha_k q_k after the body of iteration k *)
+Lemma rho_body k st : (0 < k)%N ->
+  Am *m qv (body k st).1 k - tget ArR (body k st).1.2 k k.-1 c *: qv (body k st).1 k.-1
+    - al (body k st).1 k *: qv (body k st).1 k = s_r1 k st.
+Proof.
+move=> k0; rewrite !qv_frame //; last by lia.
+rewrite body_alpha body_frame_t; last by lia.
+by rewrite /s_r1 /s_r s_wE.
+Qed.
+
+Notation st0 := (lz_init ArR n C num_iter mm).
+
+Lemma init_AR init : i_v init != 0 -> G 2 (st0 init) -> AR 2 (st0 init).
+Proof.
+move=> Hv HG [|j] // _.
+have Hb : i_b init != 0 by rewrite -init_beta; exact: HG.
+rewrite init_q0 init_alpha init_beta init_q1 add0r [i_b init *: _]scalerA divff // scale1r /i_r1.
+have -> : Am *m i_q0 init = i_w init.
+  by rewrite /i_w mm_lin Ecdiv Ecnorm.
+by rewrite addrC subrK.
+Qed.
+
+End Sym.
+
 End Column.
+
+(* ---------------------------------------------------------------------------------------------- *)
+(* the exits of the loop (lines 131-147) in exact arithmetic, all columns together *)
+Section Exit.
+Variables (n C num_iter : nat) (mm : cols F -> cols F) (tol brk : F) (n_extra : nat).
+Variable Am : nat -> 'M[F]_n.
+Hypothesis mm_lin : forall c X, (c < C)%N -> cv n (mm X) c = Am c *m cv n X c.
+Hypothesis Am_sym : forall c, (c < C)%N -> (Am c)^T = Am c.
+Hypothesis tol_ge0 : 0 <= tol.
+Hypothesis extra_gt0 : (0 < n_extra)%N.
+
+Notation body := (lz_body ArR n C num_iter mm tol brk n_extra).
+Notation loop := (lz_loop ArR n C num_iter mm tol brk n_extra).
+
+(* residual of the three-term relation of vector k in column c:  A q_k - beta_{k-1} q_{k-1} - alpha_k q_k *)
+Definition rho (c k : nat) (st : lz_state F) : 'cV[F]_n :=
+  Am c *m qv n c st k - tget ArR st.2 k k.-1 c *: qv n c st k.-1 - al c st k *: qv n c st k.
+
+Lemma all_mkseq (T : Type) (p : pred T) (f : nat -> T) m : (forall i, (i < m)%N -> p (f i)) -> all p (mkseq f m).
+Proof. by move=> H; rewrite /mkseq all_map; apply/allP => i; rewrite mem_iota add0n /= => hi; exact: H. Qed.
+
+Lemma extra_none qm k R ip : ~~ any_gt ArR tol ip -> extra_passes ArR n C tol n_extra qm k R ip = (R, true).
+Proof. by case: n_extra extra_gt0 => // f _ /= ->. Qed.
+
+Lemma body_r3_col c k qm tm : (c < C)%N ->
+  let r := lz_r ArR n C mm qm tm k in let alpha := lz_alpha ArR n C qm k r in
+  let r2 := lz_r2 ArR n C qm k r alpha in
+  cv n (cdiv ArR n C r2 (cnorm ArR n C r2)) c = s_r3 n mm c k (qm, tm)
+  /\ vget ArR (cnorm ArR n C r2) c = s_b n mm c k (qm, tm).
+Proof.
+move=> hc /=; rewrite /s_r3 /s_b /s_r2 /s_r1 /s_a /s_r /s_w /qv /=.
+by rewrite (cv_cdiv _ _ _ hc) !(vget_cnorm _ _ hc) (cv_lz_r2 _ _ _ _ _ hc) (vget_lz_alpha _ _ _ _ hc) (cv_lz_r _ _ _ _ _ hc).
+Qed.
+
+(* with exact arithmetic no extra pass is ever needed: the `break` is taken iff all betas are small *)
+Lemma body_break k st :
+  (k.+1 < num_iter)%N -> (forall c, (c < C)%N -> ON n c k.+1 st) ->
+  (body k st).2 -> forall c, (c < C)%N -> `|s_b n mm c k st| <= brk.
+Proof.
+case: st => qm tm hk Hon; rewrite /lz_body hk.
+set r := lz_r _ _ _ _ _ _ _; set alpha := lz_alpha _ _ _ _ _ _; set r2 := lz_r2 _ _ _ _ _ _ _.
+set r3 := cdiv _ _ _ r2 _.
+have Hip : ~~ any_gt ArR tol (inner_products ArR n C qm k r3).
+  rewrite /any_gt -all_predC /inner_products; apply: all_mkseq => i hi /=.
+  rewrite -all_predC /cdot; apply: all_mkseq => c hc /=.
+  have [E3 _] := @body_r3_col c k qm tm hc.
+  rewrite dot_dotv -/(cv n (qrow qm i) c) -/(cv n r3 c) /r3 /r2 /alpha /r E3 /s_r3 dotvZr.
+  have Hon' : forall i j, (i <= k)%N -> (j <= k)%N ->
+       dotv (qv n c (qm, tm) i) (qv n c (qm, tm) j) = (i == j)%:R.
+    by move=> i' j' hi' hj'; apply: Hon.
+  by rewrite /s_r2 (proj_orth Hon') // mulr0 -leNgt.
+rewrite (extra_none _ _ _ Hip) /= orbF => Hb c hc.
+have [_ Eb] := @body_r3_col c k qm tm hc.
+rewrite -Eb leNgt; apply: contra Hb => Hlt.
+apply/hasP; exists (vget ArR (cnorm ArR n C r2) c) => //.
+by rewrite /vget mem_nth // size_mkseq.
+Qed.
+
+Lemma body_break_lt k st : (body k st).2 -> (k.+1 < num_iter)%N.
+Proof. by case: st => qm tm; rewrite /lz_body; case: ifP. Qed.
+
+Lemma sqr_le_brk (x : F) : 0 <= x -> `|x| <= brk -> x ^+ 2 <= brk ^+ 2.
+Proof.
+move=> x0 Hx; have xb : x <= brk by rewrite -(ger0_norm x0).
+by rewrite -(ger0_norm x0) -[brk]ger0_norm ?ler_sqr ?(le_trans x0 xb) // ?nnegrE ?normr_ge0 // !ger0_norm ?(le_trans x0 xb).
+Qed.
+
+(* early exit: in every column the residual of the last three-term relation has norm <= the threshold *)
+Lemma loop_exit fuel k st :
+  (0 < fuel)%N -> (k + fuel = num_iter)%N -> (0 < k)%N ->
+  (forall c, (c < C)%N -> t_sym ArR st.2 /\ (G c k.+1 st -> ON n c k.+1 st /\ @AR n c (Am c) k.+1 st)) ->
+  let r := loop fuel k st in
+  (forall c, (c < C)%N -> G c r.2.+1 r.1) -> (r.2.+1 < num_iter)%N ->
+  forall c, (c < C)%N -> dotv (rho c r.2 r.1) (rho c r.2 r.1) <= brk ^+ 2.
+Proof.
+move=> f0 Hk k0 H.
+have := @lz_loop_rule _ ArR n C num_iter mm tol brk n_extra
+  (fun k st => (0 < k)%N /\ forall c, (c < C)%N ->
+       t_sym ArR st.2 /\ (G c k.+1 st -> ON n c k.+1 st /\ @AR n c (Am c) k.+1 st))
+  (fun k st b => b -> (forall c, (c < C)%N -> G c k.+1 st) ->
+       forall c, (c < C)%N -> dotv (rho c k st) (rho c k st) <= brk ^+ 2)
+  _ fuel k st f0 Hk k0 (conj k0 H).
+case.
+  move=> k' st' _ kn' [k0' HP]; split; last first.
+    move=> hk; split=> // c hc; have [Hs HPc] := HP c hc.
+    have [H1 _ H3] := body_AR_inv num_iter tol brk n_extra hc (fun X => mm_lin X hc) (Am_sym hc) k0' Hs HPc.
+    by split=> //; exact: H3.
+  move=> Hb HG c hc.
+  have hk := body_break_lt Hb.
+  have HGf c' : (c' < C)%N -> G c' k'.+1 st'.
+    by move=> hc' j hj; rewrite -(be_frame n num_iter mm tol brk n_extra hc' (k:=k') st') //; exact: HG.
+  have Hon c' : (c' < C)%N -> ON n c' k'.+1 st'.
+    by move=> hc'; have [_ HPc] := HP c' hc'; have [] := HPc (HGf c' hc').
+  have Hbrk := body_break hk Hon Hb hc.
+  have [Hs HPc] := HP c hc; have [Honc Harc] := HPc (HGf c hc).
+  rewrite /rho (rho_body num_iter tol brk n_extra hc (fun X => mm_lin X hc) st' k0').
+  rewrite -(s_r2_r1 hc (fun X => mm_lin X hc) (Am_sym hc) k0' Hs Honc Harc).
+  have -> : dotv (s_r2 n mm c k' st') (s_r2 n mm c k' st') = (s_b n mm c k' st') ^+ 2.
+    by rewrite /s_b sqr_sqrtr // dotv_ge0.
+  by apply: sqr_le_brk => //; rewrite /s_b sqrtr_ge0.
+move=> b [Hpost Hb _] /= HG hlt c hc.
+apply: Hpost => //.
+case: b Hb => //= /eqP E.
+by rewrite E ltnn in hlt.
+Qed.
+
+End Exit.
 
 (* ---------------------------------------------------------------------------------------------- *)
 (* the returned matrices *)
@@ -434,6 +729,37 @@ have h1 : (idx %% B < B)%N by rewrite ltn_pmod.
 have h2 : (idx %/ B < nvec)%N by rewrite ltn_divLR.
 nia.
 Qed.
+
+Lemma col_of_surj B nvec c : (c < B * nvec)%N ->
+  exists2 idx, (idx < nvec * B)%N & col_of B nvec idx = c.
+Proof.
+move=> hc.
+have nv0 : (0 < nvec)%N by case: nvec hc => //; rewrite muln0.
+have B0 : (0 < B)%N by case: B hc.
+have h1 : (c %% nvec < nvec)%N by rewrite ltn_pmod.
+have h2 : (c %/ nvec < B)%N by rewrite ltn_divLR // mulnC.
+exists ((c %% nvec) * B + c %/ nvec)%N; first by nia.
+have E1 : (((c %% nvec) * B + c %/ nvec) %% B = c %/ nvec)%N by rewrite modnMDl modn_small.
+have E2 : (((c %% nvec) * B + c %/ nvec) %/ B = c %% nvec)%N by rewrite divnMDl // divn_small // addn0.
+by rewrite /col_of E1 E2 -divn_eq.
+Qed.
+
+Lemma sum_pick (m a : nat) (f : nat -> F) :
+  \sum_(i < m) (if (i : nat) == a then f i else 0) = if (a < m)%N then f a else 0.
+Proof.
+case: ltnP => [ha|ha].
+  rewrite (bigD1 (Ordinal ha)) //= eqxx big1 ?addr0 // => i Ni.
+  by case: eqP => // E; case/negP: Ni; apply/eqP/val_inj.
+by rewrite big1 // => i _; case: eqP => // E; move: (ltn_ord i); rewrite E ltnNge ha.
+Qed.
+
+Lemma col_mul (m n p : nat) (j : 'I_p) (A : 'M[F]_(m, n)) (B : 'M[F]_(n, p)) :
+  col j (A *m B) = A *m col j B.
+Proof. by rewrite !colE mulmxA. Qed.
+
+Lemma mulmx_entry_dotv (n m : nat) (M N : 'M[F]_(n, m)) (A : 'M[F]_n) i j :
+  (M^T *m A *m N) i j = dotv (col i M) (A *m col j N).
+Proof. by rewrite /dotv tr_col mulmxA -col_mul -!row_mul !mxE. Qed.
 
 Section Final.
 Variable g : lz_args F.
@@ -491,9 +817,189 @@ have Hk : (1 + num_iter.-1 = num_iter)%N by lia.
 apply: (@loop_ON n C num_iter (g_mm g) (g_tol g) (g_brk g) (g_extra g) _ hc num_iter.-1 1 _ f0 Hk (ltn0Sn 0)).
   exact: init_ON.
 move=> j hj; rewrite /be -final_mxT //; first exact: HG.
-by rewrite -/r -/m; lia.
+by move: hj; rewrite -/r -/m => hj; lia.
 Qed.
 
+Lemma final_colQ idx (j : 'I_m) : (idx < nvec * B)%N ->
+  col j (mx_of n m (nth [::] (o_Q o) idx)) = qv n (col_of B nvec idx) r.1 j.
+Proof. by move=> hidx; apply/colP => x; rewrite mxE final_mxQ. Qed.
+
+Lemma final_tm_inv : t_sym ArR r.1.2 /\ t_band ArR r.1.2.
+Proof.
+have [Hn _ _ _] := final_facts.
+have f0 : (0 < num_iter.-1)%N by lia.
+have Hk : (1 + num_iter.-1 = num_iter)%N by lia.
+by apply: loop_tm_inv => //; exact: init_tm_inv.
+Qed.
+
+Lemma final_range : (0 < r.2)%N.
+Proof.
+have [Hn _ _ _] := final_facts.
+have f0 : (0 < num_iter.-1)%N by lia.
+have Hk : (1 + num_iter.-1 = num_iter)%N by lia.
+by have /andP[] := @loop_range _ ArR n C num_iter (g_mm g) (g_tol g) (g_brk g) (g_extra g) num_iter.-1 1
+                     (lz_init ArR n C num_iter (g_mm g) init) f0 Hk (ltn0Sn 0).
+Qed.
+
+Section Proj.
+Variable idx : nat.
+Hypothesis hidx : (idx < nvec * B)%N.
+Let c := col_of B nvec idx.
+Variable Am : 'M[F]_n.
+Hypothesis mm_lin : forall X, cv n (g_mm g X) c = Am *m cv n X c.
+Hypothesis Am_sym : Am^T = Am.
+Hypothesis Hv : cv n init c != 0.
+Hypothesis HG : forall j, (j.+1 < m)%N -> mget ArR (nth [::] (o_T o) idx) j j.+1 != 0.
+
+Let q (i : nat) := qv n c r.1 i.
+Let alf (j : nat) := al c r.1 j.
+Let bet (j : nat) := be c r.1 j.
+
+Lemma final_AR :
+  [/\ ON n c m r.1, @AR n c Am m r.1 & alf r.2 = dotv (q r.2) (Am *m q r.2)].
+Proof.
+have [Hn _ _ _] := final_facts.
+have hc := col_of_lt hidx.
+have f0 : (0 < num_iter.-1)%N by lia.
+have Hk : (1 + num_iter.-1 = num_iter)%N by lia.
+have [] := @loop_AR n C num_iter (g_mm g) (g_tol g) (g_brk g) (g_extra g) _ hc Am mm_lin Am_sym num_iter.-1 1
+             (lz_init ArR n C num_iter (g_mm g) init) f0 Hk (ltn0Sn 0).
+  split; first by have [] := @init_tm_inv _ ArR n C num_iter (g_mm g) init.
+  by move=> HG2; split; [exact: init_ON | exact: init_AR].
+move=> _; apply.
+move=> j hj; rewrite /be -final_mxT //; first exact: HG.
+by move: hj; rewrite -/r -/m => hj; lia.
+Qed.
+
+Lemma final_Tentry (i j : nat) : (i < m)%N -> (j < m)%N ->
+  mget ArR (nth [::] (o_T o) idx) i j
+  = (if i.+1 == j then bet i else 0) + (if i == j then alf j else 0) + (if i == j.+1 then bet j else 0).
+Proof.
+move=> hi hj; rewrite final_mxT //.
+by have [Hs Hb] := final_tm_inv; exact: T_entry.
+Qed.
+
+Lemma final_projection :
+  (mx_of n m (nth [::] (o_Q o) idx))^T *m Am *m mx_of n m (nth [::] (o_Q o) idx)
+  = mx_of m m (nth [::] (o_T o) idx).
+Proof.
+have [Hon Har Hal] := final_AR.
+have k0 := final_range.
+apply/matrixP => i j.
+rewrite mulmx_entry_dotv !final_colQ // -/c -/(q i) -/(q j) [RHS]mxE final_Tentry //.
+have hi := ltn_ord i; have hj := ltn_ord j.
+have [hj1|hj1] := ltnP j.+1 m.
+  (* a column before the last: the three-term relation *)
+  rewrite Har // !dotvDr !dotvZr !Hon //.
+  congr (_ + _ + _).
+  - case: (nat_of_ord j) hj1 {hj} => [|j'] hj1; first by rewrite dotv0r.
+    have hj' : (j' < m)%N by lia.
+    rewrite dotvZr Hon // eqSS.
+    by case: eqP => [->|_]; rewrite ?mulr1 ?mulr0.
+  - by case: eqP => _; rewrite ?mulr1 ?mulr0.
+  - by case: eqP => _; rewrite ?mulr1 ?mulr0.
+(* the last column: symmetry of A *)
+have Ej : nat_of_ord j = r.2 by move: hj hj1; rewrite /m; lia.
+have -> : (i == j.+1 :> nat) = false by lia.
+rewrite addr0.
+have [Ei|Ni] := eqVneq (nat_of_ord i) (nat_of_ord j).
+  have -> : (i.+1 == j :> nat) = false by lia.
+  by rewrite add0r Ei Ej.
+rewrite addr0 -dotv_mulmx_sym // dotvC Ej.
+have hi' : (i < r.2)%N by move: hi Ni; rewrite Ej /m; lia.
+have Hon' : ON n c r.2.+1 r.1 by [].
+have Har' : @AR n c Am r.2.+1 r.1 by [].
+by rewrite (AR_dot (col_of_lt hidx) k0 Hon' Har' hi').
+Qed.
+
+(* column j of Q T, from the symmetric tridiagonal structure of T alone *)
+Lemma final_QT_col (j : 'I_m) :
+  mx_of n m (nth [::] (o_Q o) idx) *m col j (mx_of m m (nth [::] (o_T o) idx))
+  = (if nat_of_ord j is j'.+1 then bet j' *: q j' else 0) + alf j *: q j
+    + (if (j.+1 < m)%N then bet j *: q j.+1 else 0).
+Proof.
+have hj := ltn_ord j.
+apply/colP => x; rewrite [LHS]mxE [RHS]mxE [X in _ = X + _]mxE.
+under eq_bigr => i _.
+  rewrite [col _ _ _ _]mxE [mx_of m m _ _ _]mxE final_mxQ // final_Tentry // -/c -/(q i) !mulrDr.
+  over.
+rewrite !big_split /=.
+have P1 : \sum_(i < m) q i x ord0 * (if i.+1 == j :> nat then bet i else 0)
+          = (if nat_of_ord j is j'.+1 then bet j' *: q j' else 0) x ord0.
+  case: (nat_of_ord j) hj => [|j'] hj.
+    by rewrite big1 ?mxE // => i _; rewrite mulr0.
+  under eq_bigr => i _ do [rewrite eqSS (fun_if (fun z => q i x ord0 * z)) mulr0].
+  have hj' : (j' < m)%N by lia.
+  by rewrite (sum_pick m j' (fun i => q i x ord0 * bet i)) hj' [RHS]mxE mulrC.
+have P2 : \sum_(i < m) q i x ord0 * (if i == j :> nat then alf j else 0) = (alf j *: q j) x ord0.
+  under eq_bigr => i _ do [rewrite (fun_if (fun z => q i x ord0 * z)) mulr0].
+  by rewrite (sum_pick m j (fun i => q i x ord0 * alf j)) hj [RHS]mxE mulrC.
+have P3 : \sum_(i < m) q i x ord0 * (if i == j.+1 :> nat then bet j else 0)
+          = (if (j.+1 < m)%N then bet j *: q j.+1 else 0) x ord0.
+  under eq_bigr => i _ do [rewrite (fun_if (fun z => q i x ord0 * z)) mulr0].
+  rewrite (sum_pick m j.+1 (fun i => q i x ord0 * bet j)).
+  by case: ifP => _; rewrite [RHS]mxE // mulrC.
+by rewrite P1 P2 P3.
+Qed.
+
+Lemma final_arnoldi (j : 'I_m) : (j.+1 < m)%N ->
+  col j (Am *m mx_of n m (nth [::] (o_Q o) idx)
+         - mx_of n m (nth [::] (o_Q o) idx) *m mx_of m m (nth [::] (o_T o) idx)) = 0.
+Proof.
+move=> hj1.
+have [Hon Har Hal] := final_AR.
+by rewrite linearB /= !col_mul final_QT_col hj1 final_colQ // -/c -/(q j) Har // subrr.
+Qed.
+
+End Proj.
+Section ExitFinal.
+Variable Am : nat -> 'M[F]_n.
+Hypothesis mm_lin : forall c X, (c < C)%N -> cv n (g_mm g X) c = Am c *m cv n X c.
+Hypothesis Am_sym : forall c, (c < C)%N -> (Am c)^T = Am c.
+Hypothesis tol_ge0 : 0 <= g_tol g.
+Hypothesis extra_gt0 : (0 < g_extra g)%N.
+Hypothesis Hv : forall c, (c < C)%N -> cv n init c != 0.
+Hypothesis HG : forall idx, (idx < nvec * B)%N ->
+  forall j, (j.+1 < m)%N -> mget ArR (nth [::] (o_T o) idx) j j.+1 != 0.
+Hypothesis Hearly : (m < num_iter)%N.
+
+Lemma final_exit idx (j : 'I_m) : (idx < nvec * B)%N -> j.+1 = m ->
+  let c := col_of B nvec idx in
+  let rho_ := col j (Am c *m mx_of n m (nth [::] (o_Q o) idx)
+                     - mx_of n m (nth [::] (o_Q o) idx) *m mx_of m m (nth [::] (o_T o) idx)) in
+  dotv rho_ rho_ <= (g_brk g) ^+ 2.
+Proof.
+move=> hidx Ej /=.
+have [Hn _ _ _] := final_facts.
+have hc := col_of_lt hidx.
+have f0 : (0 < num_iter.-1)%N by lia.
+have Hk : (1 + num_iter.-1 = num_iter)%N by lia.
+have Hinit : forall c, (c < C)%N ->
+    t_sym ArR (lz_init ArR n C num_iter (g_mm g) init).2 /\
+    (G c 2 (lz_init ArR n C num_iter (g_mm g) init) ->
+       ON n c 2 (lz_init ArR n C num_iter (g_mm g) init) /\ @AR n c (Am c) 2 (lz_init ArR n C num_iter (g_mm g) init)).
+  move=> c hc'; split; first by have [] := @init_tm_inv _ ArR n C num_iter (g_mm g) init.
+  move=> HG2; split; first exact: init_ON (Hv hc') HG2.
+  exact: (init_AR hc' (fun X => mm_lin X hc') (Hv hc') HG2).
+have HGall : forall c, (c < C)%N -> G c r.2.+1 r.1.
+  move=> c hc' jj hjj.
+  have [idx' hidx' Ec] := col_of_surj hc'.
+  by rewrite /be -Ec -final_mxT //; [exact: HG | move: hjj; rewrite -/m; lia].
+have := @loop_exit n C num_iter (g_mm g) (g_tol g) (g_brk g) (g_extra g) Am mm_lin Am_sym tol_ge0 extra_gt0
+          num_iter.-1 1 (lz_init ArR n C num_iter (g_mm g) init) f0 Hk (ltn0Sn 0) Hinit HGall Hearly _ hc.
+have k0 := final_range.
+have [Hs _] := final_tm_inv.
+have Ej' : nat_of_ord j = r.2 by move: Ej; rewrite /m; lia.
+have -> : col j (Am (col_of B nvec idx) *m mx_of n m (nth [::] (o_Q o) idx)
+                 - mx_of n m (nth [::] (o_Q o) idx) *m mx_of m m (nth [::] (o_T o) idx))
+          = rho Am (col_of B nvec idx) r.2 r.1; last by [].
+rewrite linearB /= !col_mul (final_QT_col hidx); last exact: Hv.
+rewrite (final_colQ _ hidx) Ej' ltnn addr0 /rho.
+case: r.2 k0 => [//|k'] _ /=.
+by rewrite opprD addrA Hs.
+Qed.
+
+End ExitFinal.
 End Final.
 
 (* Theorem (orthonormality).  Exact arithmetic, any closure, any sizes / batch / number of start vectors / budget:
@@ -516,5 +1022,109 @@ apply/matrixP => i j; rewrite !mxE.
 under eq_bigr => x _ do rewrite mxE !(final_mxQ Hrun Hstart _ _ hidx).
 by rewrite -dotvE Hon.
 Qed.
+
+(* the dense closure of the correspondence (tensor_mm: one n x n matrix per batch member) satisfies the
+   linearity hypothesis of the projection theorem, with Am = the matrix of the column's batch member *)
+Lemma rowdot_sum (row x : vec F) (a : F) :
+  foldl (fun acc rx => aadd ArR acc (amul ArR rx.1 rx.2)) a (zip row x)
+  = a + \sum_(l < size row) nth 0 row l * nth 0 x l.
+Proof.
+elim: row x a => [|r0 row IH] [|x0 x] a /=; rewrite ?big_ord0 ?addr0 //.
+  by rewrite big1 ?addr0 // => i _; rewrite nth_nil mulr0.
+by rewrite IH big_ord_recl /= addrA.
+Qed.
+
+Lemma dense_mm_lin (n nvec : nat) (Ms : seq (mat F)) (c : nat) :
+  let M := nth [::] Ms (c %/ nvec) in
+  size M = n -> (forall i, (i < n)%N -> size (nth [::] M i) = n) ->
+  forall X, cv n (tensor_mm ArR nvec Ms X) c = mx_of n n M *m cv n X c.
+Proof.
+move=> M sM sR X; apply/colP => i; rewrite !mxE /tensor_mm.
+case: (ltnP c (size X)) => hcX; last first.
+  rewrite /cget (nth_default _ (s := mkseq _ _)) ?size_mkseq // /vget nth_nil.
+  rewrite big1 // => l _; rewrite !mxE /cget (nth_default _ hcX) /vget nth_nil mulr0 //.
+rewrite /cget nth_mkseq // -/M /matvec /vget (nth_map [::]) ?sM // /rowdot rowdot_sum add0r sR //.
+by apply: eq_bigr => l _; rewrite !mxE.
+Qed.
+
+(* Theorem (projection / Arnoldi relation).  Exact arithmetic; the closure acts on the column as a SYMMETRIC
+   matrix Am; no breakdown.  Then Q^T A Q = T, every column of A Q - Q T but the last vanishes, and the
+   whole residual A Q - Q T is orthogonal to the columns of Q. *)
+Theorem lanczos_projection_rcf (g : lz_args F) o nvec init :
+  lanczos_tridiag ArR g = Ok o -> lz_start g = Ok (nvec, init) ->
+  forall idx, (idx < size (o_Q o))%N ->
+    let n := g_n g in let m := o_m o in
+    let c := col_of (prodn (g_batch g)) nvec idx in
+    let Q := nth [::] (o_Q o) idx in let T := nth [::] (o_T o) idx in
+    forall Am : 'M[F]_n,
+    (forall X, cv n (g_mm g X) c = Am *m cv n X c) -> Am^T = Am ->
+    cv n init c != 0 ->
+    (forall j, (j.+1 < m)%N -> mget ArR T j j.+1 != 0) ->
+    let Qm := mx_of n m Q in let Tm := mx_of m m T in
+    [/\ Qm^T *m Am *m Qm = Tm,
+        (forall j : 'I_m, (j.+1 < m)%N -> col j (Am *m Qm - Qm *m Tm) = 0) &
+        Qm^T *m (Am *m Qm - Qm *m Tm) = 0].
+Proof.
+move=> Hrun Hstart idx hidx0 /= Am Hlin Hsym Hv HG.
+have Horth := lanczos_orthonormal_rcf Hrun Hstart hidx0 Hv HG.
+move: hidx0; rewrite (final_size Hrun Hstart).1 => hidx.
+have [_ Em _ _] := final_facts Hrun Hstart.
+move: Horth HG; rewrite /= Em => Horth HG.
+have H1 := final_projection Hrun Hstart hidx Hlin Hsym Hv HG.
+split=> //.
+- by move=> j hj; exact: (final_arnoldi Hrun Hstart hidx Hlin Hsym Hv HG).
+- by rewrite mulmxBr !mulmxA H1 Horth mul1mx subrr.
+Qed.
+
+(* Theorem (breakdown exit).  Exact arithmetic, tol >= 0, at least one extra pass allowed, every column driven by
+   a symmetric matrix, no breakdown before the exit: if the loop stops early (m < min(max_iter, n)) then in EVERY
+   column the only non-zero column of A Q - Q T, the last one, has Euclidean norm <= the threshold (1e-6):
+   Q T Q^T reproduces A on span Q up to that residual.  (In exact arithmetic the extra re-orthogonalisation
+   passes never run, so the exit can only be the beta test.) *)
+Theorem lanczos_early_exit_rcf (g : lz_args F) o nvec init :
+  lanczos_tridiag ArR g = Ok o -> lz_start g = Ok (nvec, init) ->
+  let n := g_n g in let C := (prodn (g_batch g) * nvec)%N in let m := o_m o in
+  forall Am : nat -> 'M[F]_n,
+  (forall c X, (c < C)%N -> cv n (g_mm g X) c = Am c *m cv n X c) ->
+  (forall c, (c < C)%N -> (Am c)^T = Am c) ->
+  0 <= g_tol g -> (0 < g_extra g)%N ->
+  (forall c, (c < C)%N -> cv n init c != 0) ->
+  (forall idx, (idx < size (o_T o))%N -> forall j, (j.+1 < m)%N -> mget ArR (nth [::] (o_T o) idx) j j.+1 != 0) ->
+  (m < minn (g_max_iter g) n)%N ->
+  forall idx, (idx < size (o_Q o))%N -> forall j : 'I_m, j.+1 = m ->
+    let c := col_of (prodn (g_batch g)) nvec idx in
+    let Qm := mx_of n m (nth [::] (o_Q o) idx) in let Tm := mx_of m m (nth [::] (o_T o) idx) in
+    let rho_ := col j (Am c *m Qm - Qm *m Tm) in
+    dotv rho_ rho_ <= (g_brk g) ^+ 2.
+Proof.
+move=> Hrun Hstart /= Am Hlin Hsym Htol Hex Hv HG Hearly idx hidx0.
+move: hidx0 HG; rewrite (final_size Hrun Hstart).1 (final_size Hrun Hstart).2 => hidx HG.
+have [_ Em _ _] := final_facts Hrun Hstart.
+move: HG Hearly; rewrite Em => HG Hearly j Ej.
+exact: (final_exit Hrun Hstart Hlin Hsym Htol Hex Hv HG Hearly hidx Ej).
+Qed.
+
+(* pure matrix consequences *)
+Lemma full_space_mx (n m : nat) (Q : 'M[F]_(n, m)) (T : 'M[F]_m) (A : 'M[F]_n) :
+  m = n -> Q^T *m Q = 1%:M -> Q^T *m A *m Q = T -> Q *m Q^T = 1%:M /\ Q *m T *m Q^T = A.
+Proof.
+move=> E; move: Q T; rewrite E => Q T H1 H2.
+have H3 : Q *m Q^T = 1%:M by exact: mulmx1C.
+by split=> //; rewrite -H2 !mulmxA H3 mul1mx -mulmxA H3 mulmx1.
+Qed.
+
+Lemma compression_mx (n m : nat) (Q : 'M[F]_(n, m)) (T : 'M[F]_m) (A : 'M[F]_n) :
+  Q^T *m Q = 1%:M -> Q^T *m A *m Q = T ->
+  let P := Q *m Q^T in [/\ P *m P = P, P^T = P & Q *m T *m Q^T = P *m A *m P].
+Proof.
+move=> H1 H2 /=; split.
+- by rewrite mulmxA -[Q *m Q^T *m Q]mulmxA H1 mulmx1.
+- by rewrite trmx_mul trmxK.
+- by rewrite -H2 !mulmxA.
+Qed.
+
+Lemma invariant_mx (n m : nat) (Q : 'M[F]_(n, m)) (T : 'M[F]_m) (A : 'M[F]_n) (y : 'cV[F]_m) :
+  Q^T *m Q = 1%:M -> A *m Q = Q *m T -> (Q *m T *m Q^T) *m (Q *m y) = A *m (Q *m y).
+Proof. by move=> H1 H2; rewrite -!mulmxA [Q^T *m _]mulmxA H1 mul1mx !mulmxA H2. Qed.
 
 End Alg.
